@@ -6,6 +6,8 @@ every accepted rendering; one word at a time is replaced and the rendered parame
 numeric token at position k must be a rendering of START word k and may react to no other word, to no END word and
 to no unrelated nested record; the whole call part must be invariant under END records and unrelated records.
 """
+import re
+
 from vlib import core, ev, domain, histories as H, render, stream
 
 LEVEL = 'exploration'
@@ -21,6 +23,13 @@ NARROW_PARAMETERS = {('MSC_semaphore_timedwait_trap', 1): 32}
 WORD_BOUNDARIES = (0, 1, 0x7f, 0x80, 0xff, 0x7fff, 0x8000, 0xffff, (1 << 31) - 1, 1 << 31, (1 << 31) + 0x1234, (1 << 32) - 1,
                    1 << 32, (1 << 32) + 0x1234, (1 << 63) - 1, 1 << 63, (1 << 64) - 1)
 MARK = [b'/PMa/x', b'/PMb/y', b'/PMc/z', b'/PMd/w', b'/PMe/v', b'/PMf/u', b'/PMg/t']
+
+
+def loose_value(tok):
+    v = render.numeric_value(tok)
+    if v is None and re.fullmatch(r'[0-9a-f]+', tok):
+        return int(tok, 16)
+    return v
 
 
 def render_outer(name, start, end, lookups=(), junk=()):
@@ -121,12 +130,17 @@ def check_decoder(res, ctx, rng, name):
                 res.violation('c09-end-word-in-call', f'{name}: parameter {k} shows {tok}, a rendering of END word '
                               f'{ends[0]}: {text0!r}', case)
                 return
-            res.count('numeric_tokens_not_a_plain_rendering')
+            res.violation('c09-parameter-not-a-rendering', f'{name}: parameter {k} shows {tok}, which is neither the decimal, '
+                          f'the signed nor the 0x form of START word {k} ({hex(start[k]) if k < 4 else "-"}) nor of any other '
+                          f'word of the window: {text0!r}', case)
+            return
         # (1b) boundary values of the word itself (the sentinels above are all >= 2^62): a parameter that shows a number
         # shows its own word's full 64-bit value also at 0, around 2^31 / 2^32 and at the ends of the range
         if k_iter < ctx.pick(2, 6):
             for j in range(min(4, len(tokens0))):
-                if j in enums or ('S', j) in domain.TABLE.get(name, {}) or render.numeric_value(tokens0[j]) is None:
+                # a position counts as numeric when, for the sentinel word, it shows a number of that word - also one
+                # written in hexadecimal without a prefix (read as decimal, such a token names another number)
+                if j in enums or ('S', j) in domain.TABLE.get(name, {}) or loose_value(tokens0[j]) not in render.renderings(start[j]):
                     continue
                 for b in WORD_BOUNDARIES:
                     s1 = list(start)
@@ -149,6 +163,10 @@ def check_decoder(res, ctx, rng, name):
                         res.violation('c09-parameter-truncated', f'{name}: parameter {j} shows {sc1[1][j]} for the recorded '
                                       f'argument {hex(b)} (= {b}): only a narrower reading of the word: {t1!r}',
                                       dict(case, start=s1))
+                        return
+                    if v != render.numeric_value(tokens0[j]):
+                        res.violation('c09-parameter-not-a-rendering', f'{name}: parameter {j} shows {sc1[1][j]} for the recorded '
+                                      f'argument {hex(b)} (= {b}): not its decimal, signed or 0x form: {t1!r}', dict(case, start=s1))
                         return
                     if v == render.numeric_value(tokens0[j]):
                         res.violation('c09-parameter-ignores-its-word', f'{name}: parameter {j} stays {tokens0[j]} when START '
